@@ -294,3 +294,222 @@ Proof.
   rewrite (bsub_stem_prefix lru x Hl Hx).
   destruct (stem_prefix_path lru x Hx) as (Hwx & _). exact (Hk x d Hwx Hd Hr).
 Qed.
+
+(* ====================================================================================== *)
+(* 4. __create_webentity(prefix, expand=True, use_best_case=True)                          *)
+(* ====================================================================================== *)
+Lemma add_prefixes_best_not_refused : forall ps s, snd (add_prefixes ps true s) <> ARefuse.
+Proof.
+  intros ps s. unfold add_prefixes. destruct (walk_prefixes ps s 0 []) as [[s1 ninv] valid].
+  rewrite andb_false_r. destruct (Nat.eqb ninv (length ps)); cbn [snd]; discriminate.
+Qed.
+
+Theorem py_create_from_spec : forall s, Inv18 s -> root_first s -> forall hd sg p,
+  hrep s hd sg -> wf_lru p ->
+  let r := create_from p s in
+  let s' := fst r in
+  nb s' * 128 < 2 ^ 64 -> lastwe s + 1 < 2 ^ 32 ->
+  Inv18 s' /\ root_first s' /\
+  exists hd' sg', py_traph_create_webentity_from hd sg p true true = Some (hd', sg', mk_rp (snd r) 0) /\ hrep s' hd' sg'.
+Proof.
+  intros s Hinv Hroot hd sg p Hh Hp r s' Hsize Hlt.
+  assert (Es : s' = fst (add_prefixes (lru_variations p) true s)) by apply create_from_state.
+  rewrite Es in Hsize.
+  destruct (py_traph_add_prefixes_spec s Hinv Hroot hd sg (lru_variations p) true Hh (lru_variations_wf p Hp) Hsize Hlt)
+    as (Hinv' & Hroot' & HA).
+  rewrite Es. split; [exact Hinv'|]. split; [exact Hroot'|].
+  unfold py_traph_create_webentity_from, py_traph_expand_prefix. rewrite py_lru_variations_eq. cbv zeta.
+  pose proof (add_prefixes_best_not_refused (lru_variations p) s) as Hnr.
+  unfold r, create_from.
+  destruct (add_prefixes (lru_variations p) true s) as [s1 [| |w valid]]; cbn [fst snd] in *.
+  - exfalso. apply Hnr. reflexivity.
+  - destruct HA as (hd' & sg' & E & Hh'). rewrite E. exists hd', sg'. split; [reflexivity|exact Hh'].
+  - destruct HA as (hd' & sg' & E & Hh' & Ew & _). rewrite E.
+    assert (E0 : (w =? 0) = false) by (apply N.eqb_neq; lia).
+    rewrite E0. exists hd', sg'. split; [reflexivity|exact Hh'].
+Qed.
+
+(* ====================================================================================== *)
+(* 5. the model side                                                                      *)
+(* ====================================================================================== *)
+(* ---- RAM fields ---- *)
+Lemma tap_state_fields : forall lru cr s, lastwe (tap_state lru cr s) = lastwe s /\ rules (tap_state lru cr s) = rules s /\
+  dflt (tap_state lru cr s) = dflt s /\ stubs (tap_state lru cr s) = stubs s.
+Proof.
+  intros lru cr s. unfold tap_state. destruct (find (lru_iter lru) (tr s)) as [d|]; [|auto].
+  destruct (page d); [destruct (cr && negb (crawled d))|]; auto.
+Qed.
+
+Lemma trie_add_page_fields : forall lru cr s, let s1 := fst (fst (trie_add_page lru cr s)) in
+  lastwe s1 = lastwe s /\ rules s1 = rules s /\ dflt s1 = dflt s.
+Proof.
+  intros lru cr s. cbv zeta. rewrite trie_add_page_state.
+  destruct (tap_state_fields lru cr (fst (add_lru false lru s))) as (H1 & H2 & H3 & _).
+  destruct (add_lru_fields false lru s) as (G1 & _ & G2 & G3).
+  rewrite H1, H2, H3. auto.
+Qed.
+
+Lemma walked_fields : forall ps s, rules (walked ps s) = rules s /\ dflt (walked ps s) = dflt s.
+Proof.
+  induction ps as [|p ps IH]; intro s; [auto|].
+  cbn [walked fold_left]. fold (walked ps (fst (add_lru true p s))).
+  destruct (IH (fst (add_lru true p s))) as [H1 H2]. destruct (add_lru_fields true p s) as (_ & _ & G2 & G3).
+  rewrite H1, H2. auto.
+Qed.
+
+Lemma add_prefixes_fields : forall ps best s, let s' := fst (add_prefixes ps best s) in
+  rules s' = rules s /\ dflt s' = dflt s.
+Proof.
+  intros ps best s. cbv zeta. unfold add_prefixes.
+  pose proof (walk_state ps s 0 []) as Ew. pose proof (walked_fields ps s) as Hf.
+  destruct (walk_prefixes ps s 0 []) as [[s1 ninv] valid]. cbn [fst] in Ew. subst s1.
+  destruct (negb (Nat.eqb ninv 0) && negb best); [exact Hf|].
+  destruct (Nat.eqb ninv (length ps)); exact Hf.
+Qed.
+
+Lemma add_page_int_parts : forall lru cr s,
+  let r1 := trie_add_page lru cr s in
+  let s1 := fst (fst r1) in
+  add_page_int lru cr s =
+  match decide s1 lru (snd (fst r1)) with
+  | LCand p => (fst (create_from p s1), if snd r1 then 1 else 0, snd (create_from p s1))
+  | _ => (s1, if snd r1 then 1 else 0, [])
+  end.
+Proof.
+  intros lru cr s. cbv zeta. unfold add_page_int. destruct (trie_add_page lru cr s) as [[s1 h] created]. cbn [fst snd].
+  destruct (decide s1 lru h) as [|p|]; try reflexivity. destruct (create_from p s1) as [s2 c]. reflexivity.
+Qed.
+
+Lemma add_page_int_ram : forall lru cr s, let s' := fst (fst (add_page_int lru cr s)) in
+  rules s' = rules s /\ dflt s' = dflt s.
+Proof.
+  intros lru cr s. cbv zeta. rewrite add_page_int_parts. cbv zeta.
+  destruct (trie_add_page_fields lru cr s) as (_ & H2 & H3).
+  destruct (decide _ lru _) as [|p|]; cbn [fst]; auto.
+  rewrite create_from_state.
+  destruct (add_prefixes_fields (lru_variations p) true (fst (fst (trie_add_page lru cr s)))) as [G1 G2].
+  rewrite G1, G2. auto.
+Qed.
+
+Lemma add_page_int_ramrep : forall lru cr s rm, ramrep s rm -> ramrep (fst (fst (add_page_int lru cr s))) rm.
+Proof.
+  intros lru cr s rm [H1 H2]. destruct (add_page_int_ram lru cr s) as [G1 G2]. split; congruence.
+Qed.
+
+(* ---- sizes ---- *)
+Lemma add_lru_nb_mono : forall flag p s, nb s <= nb (fst (add_lru flag p s)).
+Proof. intros. rewrite add_lru_nb. apply ins_nb_mono. Qed.
+
+Lemma trie_add_page_nb_mono : forall lru cr s, nb s <= nb (fst (fst (trie_add_page lru cr s))).
+Proof. intros. rewrite trie_add_page_state, tap_state_nb. apply add_lru_nb_mono. Qed.
+
+Lemma add_prefixes_nb_mono : forall ps best s, nb s <= nb (fst (add_prefixes ps best s)).
+Proof.
+  intros ps best s. destruct (walk_prefixes ps s 0 []) as [[s1 ninv] valid] eqn:Ew.
+  rewrite (add_prefixes_nb ps best s s1 ninv valid Ew).
+  pose proof (walk_state ps s 0 []) as E. rewrite Ew in E. cbn [fst] in E. subst s1. apply walked_nb_mono.
+Qed.
+
+Lemma create_from_nb_mono : forall p s, nb s <= nb (fst (create_from p s)).
+Proof. intros. rewrite create_from_state. apply add_prefixes_nb_mono. Qed.
+
+Lemma add_page_int_nb_trie : forall lru cr s,
+  nb (fst (fst (trie_add_page lru cr s))) <= nb (fst (fst (add_page_int lru cr s))).
+Proof.
+  intros lru cr s. rewrite add_page_int_parts. cbv zeta.
+  destruct (decide _ lru _) as [|p|]; cbn [fst]; try lia. apply create_from_nb_mono.
+Qed.
+
+Lemma add_page_int_nb_mono : forall lru cr s, nb s <= nb (fst (fst (add_page_int lru cr s))).
+Proof.
+  intros. pose proof (trie_add_page_nb_mono lru cr s). pose proof (add_page_int_nb_trie lru cr s). lia.
+Qed.
+
+(* ---- the counter: a page creates at most one webentity, whose id is the counter + 1 ---- *)
+Lemma add_page_int_counter : forall lru cr s,
+  let r := add_page_int lru cr s in
+  (snd r = [] /\ lastwe (fst (fst r)) = lastwe s) \/
+  (exists valid, snd r = [(lastwe s + 1, valid)] /\ lastwe (fst (fst r)) = lastwe s + 1).
+Proof.
+  intros lru cr s. cbv zeta. rewrite add_page_int_parts. cbv zeta.
+  destruct (trie_add_page_fields lru cr s) as (H1 & _).
+  destruct (decide _ lru _) as [|p|]; cbn [fst snd]; auto.
+  set (s1 := fst (fst (trie_add_page lru cr s))) in *.
+  unfold create_from.
+  pose proof (add_prefixes_ids (lru_variations p) true s1) as Hid.
+  destruct (add_prefixes (lru_variations p) true s1) as [s2 [| |w valid]]; specialize (Hid s2 _ eq_refl); cbn [fst snd].
+  - left. split; [reflexivity|congruence].
+  - left. split; [reflexivity|congruence].
+  - right. destruct Hid as [Hw Hl]. exists valid. rewrite Hl, Hw, H1. auto.
+Qed.
+
+(* ---- anchors_known along add_page_int ---- *)
+Lemma anchors_known_ext : forall s s', tr s' = tr s -> rules s' = rules s -> anchors_known s -> anchors_known s'.
+Proof. intros s s' Ht Hr H l d Hl Hd Hru. unfold nodeof in Hd. rewrite Ht in Hd. rewrite Hr. exact (H l d Hl Hd Hru). Qed.
+
+Lemma anchors_known_add_lru : forall flag p s, anchors_known s -> anchors_known (fst (add_lru flag p s)).
+Proof.
+  intros flag p s H l d' Hl Hd' Hr. destruct (add_lru_fields flag p s) as (_ & _ & Er & _). rewrite Er.
+  destruct (add_lru_bwd flag p s l d' Hd') as [(d & Hd & Hs)|(_ & _ & _ & _ & Hru & _)]; [|congruence].
+  apply same_data_proj in Hs. destruct Hs as (_ & _ & Hru & _). apply (H l d Hl Hd). congruence.
+Qed.
+
+Lemma anchors_known_upd : forall f q s, (forall d, stem (f d) = stem d) -> (forall d, rule (f d) = rule d) ->
+  anchors_known s -> anchors_known (set_tree (upd f q (tr s)) s).
+Proof.
+  intros f q s Hst Hru H l d' Hl Hd' Hr. unfold nodeof in Hd'. cbn [set_tree set_tr tr rules] in *.
+  destruct (find_upd_cases f _ q (tr s) d' Hst Hd') as (d & Hd & [[_ ->]|[_ ->]]).
+  - apply (H l d Hl Hd). rewrite <- Hru. exact Hr.
+  - exact (H l d Hl Hd Hr).
+Qed.
+
+Lemma anchors_known_tap : forall lru cr s, anchors_known s -> anchors_known (tap_state lru cr s).
+Proof.
+  intros lru cr s H. unfold tap_state. destruct (find (lru_iter lru) (tr s)) as [d|]; [|exact H].
+  destruct (page d); [destruct (cr && negb (crawled d)); [|exact H]|].
+  - apply anchors_known_upd; auto.
+  - apply anchors_known_upd; [intro d0; destruct cr; reflexivity|intro d0; destruct cr; reflexivity|exact H].
+Qed.
+
+Lemma anchors_known_walked : forall ps s, anchors_known s -> anchors_known (walked ps s).
+Proof.
+  induction ps as [|p ps IH]; intros s H; [exact H|]. cbn [walked fold_left]. apply IH. apply anchors_known_add_lru. exact H.
+Qed.
+
+Lemma anchors_known_set_we_all : forall w ps s, anchors_known s -> anchors_known (set_tree (set_we_all w ps (tr s)) s).
+Proof.
+  intros w ps. induction ps as [|p ps IH]; intros s H.
+  - cbn [set_we_all fold_left]. eapply anchors_known_ext; [| |exact H]; reflexivity.
+  - cbn [set_we_all fold_left].
+    pose proof (anchors_known_upd (set_we w) (lru_iter p) s (fun _ => eq_refl) (fun _ => eq_refl) H) as H1.
+    specialize (IH _ H1). eapply anchors_known_ext; [| |exact IH]; reflexivity.
+Qed.
+
+Lemma anchors_known_add_prefixes : forall ps best s, anchors_known s -> anchors_known (fst (add_prefixes ps best s)).
+Proof.
+  intros ps best s H. unfold add_prefixes.
+  pose proof (walk_state ps s 0 []) as Ew. pose proof (anchors_known_walked ps s H) as Hw.
+  destruct (walk_prefixes ps s 0 []) as [[s1 ninv] valid]. cbn [fst] in Ew. subst s1.
+  destruct (negb (Nat.eqb ninv 0) && negb best); [exact Hw|].
+  destruct (Nat.eqb ninv (length ps)); [exact Hw|]. cbn [fst].
+  eapply anchors_known_ext; [| |exact (anchors_known_set_we_all (lastwe (walked ps s) + 1) valid _ Hw)]; reflexivity.
+Qed.
+
+Lemma anchors_known_trie_add_page : forall lru cr s, anchors_known s -> anchors_known (fst (fst (trie_add_page lru cr s))).
+Proof. intros. rewrite trie_add_page_state. apply anchors_known_tap, anchors_known_add_lru. assumption. Qed.
+
+Theorem anchors_known_add_page_int : forall lru cr s, anchors_known s -> anchors_known (fst (fst (add_page_int lru cr s))).
+Proof.
+  intros lru cr s H. rewrite add_page_int_parts. cbv zeta.
+  pose proof (anchors_known_trie_add_page lru cr s H) as H1.
+  destruct (decide _ lru _) as [|p|]; cbn [fst]; try exact H1.
+  rewrite create_from_state. apply anchors_known_add_prefixes. exact H1.
+Qed.
+
+(* the walk made by the insertion of a page only meets known anchors *)
+Lemma trie_add_page_walk_known : forall lru cr s, wf_lru lru -> anchors_known s ->
+  walk_known (rules s) lru (snd (fst (trie_add_page lru cr s))).
+Proof.
+  intros lru cr s Hl H. destruct (trie_add_page_parts lru cr s) as [E _]. rewrite E.
+  apply walk_anchors_known; assumption.
+Qed.
